@@ -22,8 +22,28 @@ ClauseTable(e) ==
       ELSE IF \E y \in got : ~(\E x \in want : y[1] = x[1] /\ y[2] = x[2]) THEN "table_extra_pair"
       ELSE IF got # want THEN "table_wrong_distance"
       ELSE IF Len(e.pairs) # Cardinality(got) THEN "table_duplicate_key" ELSE "ok"
+\* growth: Network.sub_network(source, cut, "TOPOLOGIC") keeps exactly the edges whose two end nodes are within the cut
+ClauseSubnet(e) ==
+   LET d == DistFrom(e.g, V(e), e.s)
+       want == {k \in DOMAIN e.g : d[e.g[k][1]] <= e.cut /\ d[e.g[k][2]] <= e.cut}
+       got == {e.ids[k] : k \in DOMAIN e.ids}
+   IN IF got = want /\ Len(e.ids) = Cardinality(got) THEN "ok"
+      ELSE IF \E k \in want : k \notin got THEN "subnetwork_omits_an_edge_within_the_cut" ELSE "subnetwork_holds_an_edge_beyond_the_cut"
+\* growth: Network.distanceBtwPts(edge1, abscissa1, edge2, abscissa2) on prepared distances (edge weights = lengths)
+MinOf4(a, b, c, d) == LET m1 == IF a < b THEN a ELSE b  m2 == IF c < d THEN c ELSE d IN IF m1 < m2 THEN m1 ELSE m2
+ClauseBtw(e) ==
+   LET T == Table(e.g, V(e))
+       e1 == e.g[e.e1]  e2 == e.g[e.e2]
+       dd(u, v) == T[u][v]
+       want == IF e.e1 = e.e2 THEN (IF e.a1 < e.a2 THEN e.a2 - e.a1 ELSE e.a1 - e.a2)
+               ELSE MinOf4(e.a1 + dd(e1[1], e2[1]) + e.a2, (e1[3] - e.a1) + dd(e1[2], e2[2]) + (e2[3] - e.a2),
+                           e.a1 + dd(e1[1], e2[2]) + (e2[3] - e.a2), (e1[3] - e.a1) + dd(e1[2], e2[1]) + e.a2)
+   IN IF want >= Inf THEN (IF e.d = -1 THEN "ok" ELSE "distance_between_points_finite_but_unreachable")
+      ELSE IF e.d = want THEN "ok" ELSE "distance_between_points"
 Clause(e) ==
    CASE e.ev = "dist"  -> ClauseDist(e)
+     [] e.ev = "subnet" -> ClauseSubnet(e)
+     [] e.ev = "btw" -> ClauseBtw(e)
      [] e.ev = "list"  -> ClauseList(e)
      [] e.ev = "table" -> ClauseTable(e)
      [] e.ev = "path"  -> AcceptPath(e.g, V(e), e.s, e.t, e.has, e.path, e.geom)
